@@ -3,6 +3,7 @@ package props
 import (
 	"fmt"
 
+	"verif/fw"
 	"verif/interp"
 )
 
@@ -15,5 +16,11 @@ func DebugPool() {
 	}
 	for _, s := range skipped {
 		fmt.Println("SKIPPED:", s)
+	}
+}
+
+func init() {
+	fw.CounterHook = func() map[string]int {
+		return map[string]int{"interp_source_runs": interp.RunCount, "interp_source_parse_errors": interp.ParseErrCount}
 	}
 }
